@@ -26,7 +26,8 @@ const (
 
 var c08Tris = []string{"excludesSpecialPaths", "planOrBypassOnSubGroups", "planShape", "scanEqCanonical",
 	"bucketPagingAfterFilter", "scanPagingAfterFilter", "labelReattach", "pagedQueriesBypass", "bucketChecksAttr",
-	"lookupInDedupes", "unionDedupes", "bucketWindowTimeOnly", "execPreconditions", "extractorsStandard", "canonStandard", "scanLeafStandard"}
+	"lookupInDedupes", "unionDedupes", "bucketWindowTimeOnly", "execPreconditions", "extractorsStandard", "canonStandard", "scanLeafStandard",
+	"bucketNotifyInsert", "bucketNotifyUpdate", "bucketNotifyDelete", "bucketPendingReplayed", "readerDrainsInFlight", "bucketLifecycleStandard"}
 
 var c08OpNames = map[string][2]string{ // proto name → (Lean constructor, show)
 	"hydrapb.Relational_EQUAL": {".eq", "eq"}, "hydrapb.Relational_NOT_EQUAL": {".ne", "ne"},
@@ -69,6 +70,7 @@ func c08Run(fs *Facts) {
 		c08BucketFacts(fs, f)
 	}
 	c08Shapes(fs)
+	c08Track(fs)
 }
 
 func c08At(path string, f *File, n ast.Node) string { return path + ":" + itoa(f.Line(n)) }
